@@ -23,6 +23,7 @@ from lib.common import Broken, log
 
 LEVEL = "model_checking"
 
+MAX_REPORTS = 8      # one defect fails many behaviours: report the shortest few, count the rest
 ALL_DEVS = ["double-max-sentinel-dbl-min", "long-value-rounded-onto-boundary", "diff-sum-not-computed"]
 WHAT = {
     "double-max-sentinel-dbl-min": "double histogram max is numeric_limits<double>::min() (2.2e-308) when every recorded value is below it (e.g. only 0.0)",
@@ -95,8 +96,8 @@ def mc_configs(tier):
              dict(mode="pipe", rcfgs="{11, 12, 21, 22}", mm="{TRUE, FALSE}", maxagg=4, maxops=3, invs=INV_FULL)),
             ("pipe 2 readers (dc), 2 attribute sets, ranks 0..4, <=3 values, <=3 collections",
              dict(mode="pipe", rcfgs="{12}", nkeys=2, maxagg=3, maxops=3, invs=INV_FULL)),
-            ("direct 2 objects, ranks 0..6, boundary lists within {1,3,5}, min/max on+off, <=3 Aggregate, <=4 other",
-             dict(mode="direct", maxrank=6, bsets=B135, nslots=2, mm="{TRUE, FALSE}", maxagg=3, maxops=4, invs=INV_DIRECT)),
+            ("direct 2 objects, ranks 0..6, boundary lists within {1,3,5}, <=2 Aggregate, <=4 other",
+             dict(mode="direct", maxrank=6, bsets=B135, nslots=2, maxagg=2, maxops=4, invs=INV_DIRECT)),
             ("direct 3 objects, ranks 0..4, boundaries {1,3}, <=2 Aggregate, <=4 other",
              dict(mode="direct", bsets="{{1,3}}", nslots=3, maxagg=2, maxops=4, invs=INV_DIRECT)),
         ]
@@ -281,7 +282,7 @@ def classify(ctx, behs, verdicts):
     n = 0
     points = 0
     used = {}
-    for b, v in zip(behs, verdicts):
+    for b, v in sorted(zip(behs, verdicts), key=lambda bv: len(bv[0]["steps"])):
         if v is None:
             continue
         n += 1
@@ -291,6 +292,9 @@ def classify(ctx, behs, verdicts):
         ctx.distinct.add(hash((cfg["mode"], cfg["tab"], tuple(cfg["bounds"]), cfg["mm"], tuple(cfg["readers"]), ops)))
         rep = {"behaviour": dict(b, cseed=v.get("cseed")), "verdict": v}
         if not v["ok"]:
+            if len(ctx.violations) >= MAX_REPORTS:
+                ctx.extra["violations_not_reported_separately"] = ctx.extra.get("violations_not_reported_separately", 0) + 1
+                continue
             st = b["steps"][v["step"]]
             ctx.violation("%s/%s table %s (%s) bounds(ranks)=%s: after step %d (%s) the real point differs from the spec in `%s`: got %s" % (
                 cfg["mode"], cfg["kind"], cfg["tab"], v.get("variant"), cfg["bounds"], v["step"],
